@@ -183,7 +183,7 @@ pub fn run(seed: u64, ntraces: usize) {
             g.its_tx("registerMetadata", &u, "registerTokenMetadata", vec![tok.clone()], 777, &[], json!({"token": hx(&tok)}));
             let ow = g.owner.clone();
             g.its_tx("removeTrusted", &ow, "removeTrustedAddress", vec![b"axelar".to_vec()], 0, &[], json!({"chain": hx(b"axelar")}));
-            script.extend([22u64]);
+            script.extend([22u64, 48, 49, 44, 48, 44, 44]);   // then: a stale operatorship proposal (propose, hand the role on, accept), and a fresh one accepted twice
         }
         if d == 9 {   // F-C17-5: empty destination chain: the callback falls into the local branch
             let u = g.users[0].clone();
@@ -208,8 +208,9 @@ pub fn run(seed: u64, ntraces: usize) {
             script.extend([23u64]);                                    // first issuance succeeds
             if d == 2 || d == 4 { script.push(42); }                   // between issuance and the mint step the service is the manager's minter
             if d == 7 { script.extend([10u64, 2, 15, 10]); }       // pause, try step 3 and a remote deployment, unpause
+            else if d == 3 { script.extend([47u64, 46, 23, 46, 3]); }  // steps called with different arguments: (1000, minter) then (0, no minter)
             else { script.extend([3u64, 23, 3, 3]); }
-            if d == 2 { script.extend([40u64, 19, 41, 40, 41]); }   // the minter approves a remote deployment, hands the role on, then the stale approval is used                   // step 3, second issuance callback, step 3 again (twice)
+            if d == 2 { script.extend([40u64, 43, 41, 40, 19, 41, 40, 41]); }   // the minter approves a remote deployment, hands the role on, then the stale approval is used                   // step 3, second issuance callback, step 3 again (twice)
         }
         if d == 1 || d == 6 || d >= 10 {
             // (1) an inbound link / deploy message for a token id that is already bound; (6) hub-wrapped inbound messages while paused
@@ -290,7 +291,9 @@ pub fn run(seed: u64, ntraces: usize) {
                 2 | 3 => { // deployInterchainToken: next step of an existing deployment, or a new one
                     let existing: Vec<usize> = g.toks.iter().enumerate().filter(|(_, t)| t.kind == "native").map(|(i, _)| i).collect();
                     let (salt, deployer, supply, minter) = if !existing.is_empty() && (a == 3 || r.chance(2, 3)) {
-                        let tk = &g.toks[*r.pick(&existing)]; (tk.salt.clone(), tk.deployer.clone(), tk.supply, tk.minter.clone())
+                        let tk = &g.toks[*r.pick(&existing)];
+                        let (sup, mi) = if !scripted && r.chance(1, 5) { match r.below(3) { 0 => (0u64, vec![0u8; 32]), 1 => (tk.supply + 1, tk.minter.clone()), _ => (tk.supply, r.pick(&g.users).to_vec()) } } else { (tk.supply, tk.minter.clone()) };
+                        (tk.salt.clone(), tk.deployer.clone(), sup, mi)
                     } else {
                         let supply = match r.below(3) { 0 => 0, _ => 1000 + r.below(1000) };
                         let minter = match r.below(5) { 0 => vec![0u8; 32], 1 => g.its.to_vec(), _ => r.pick(&g.users).to_vec() };
@@ -345,15 +348,15 @@ pub fn run(seed: u64, ntraces: usize) {
                     let maxa = ti.map(|i| if g.toks[i].kind == "lock" { g.toks[i].custody.max(1) } else { 40 }).unwrap_or(40);
                     let amount = if fvar.is_some() { 1 + r.below(maxa.min(15)) } else { match r.below(6) { 0 => maxa, 1 => maxa + 1, _ => 1 + r.below(maxa) } };
                     let inner = match a {
-                        6 => { let recipient = if r.chance(1, 10) { vec![1, 2, 3] } else if r.chance(1, 8) { g.toks.first().map(|t| t.tm.to_vec()).unwrap_or(g.dest.to_vec()) } else { r.pick(&g.users).to_vec() };
+                        6 => { let recipient = if fvar.is_none() && r.chance(1, 8) { let mut v = r.pick(&g.users).to_vec(); match r.below(4) { 0 => vec![1, 2, 3], 1 => { v.push(7); v }, 2 => { v.truncate(31); v }, _ => { v.extend_from_slice(&[0u8; 32]); v } } } else if r.chance(1, 8) { g.toks.first().map(|t| t.tm.to_vec()).unwrap_or(g.dest.to_vec()) } else { r.pick(&g.users).to_vec() };
                                transfer_payload(&tid, b"0xsender", &recipient, amount, b"") }
                         7 => transfer_payload(&tid, b"0xsender", g.dest.as_bytes(), amount, b"with-data"),
                         _ => if fdeploy { deploy_payload(&r.bytes(32), b"Remote", b"RMT", 6, g.users[1].as_bytes()) } else if fbound == Some(2) { deploy_payload(&tid, b"Remote", b"RMT", 6, &[]) } else if fbound.is_none() && r.chance(2, 3) {
                                 let existing: Vec<&Tok> = g.toks.iter().filter(|t| t.kind == "remote-native").collect();
                                 let tid2 = if !existing.is_empty() && r.chance(2, 3) { existing[0].id.clone() } else { r.bytes(32) };
-                                let minter = match r.below(3) { 0 => vec![], 1 => vec![9, 9], _ => r.pick(&g.users).to_vec() };
+                                let minter = match r.below(4) { 0 => vec![], 1 => vec![9, 9], 2 => { let mut v = r.pick(&g.users).to_vec(); v.push(1); v }, _ => r.pick(&g.users).to_vec() };
                                 deploy_payload(&tid2, b"Remote", b"RMT", 6, &minter)
-                             } else { link_payload(&if fbound.is_some() || (ti.is_some() && r.chance(1, 3)) { tid.clone() } else { r.bytes(32) }, *r.pick(&[0u8, 2, 4]), b"0xsrc", if r.chance(1, 5) { b"bad" } else { &tok2[..] }, &if r.chance(1, 2) { vec![] } else { g.operator.to_vec() }) },
+                             } else { link_payload(&if fbound.is_some() || (ti.is_some() && r.chance(1, 3)) { tid.clone() } else { r.bytes(32) }, *r.pick(&[0u8, 2, 4]), b"0xsrc", if r.chance(1, 5) { b"bad" } else { &tok2[..] }, &match r.below(5) { 0 | 1 => vec![], 2 => { let mut v = g.operator.to_vec(); v.push(3); v }, _ => g.operator.to_vec() }) },
                     };
                     let inner = if let Some(i) = ftype { let mut p = inner.clone(); for b in p[0..32].iter_mut() { *b = 0; }
                         match i { 0 => p[24] = 0x80, 1 => p[23] = 1, 2 => p[0] = 0x80, 3 => p[31] = 6, 4 => p[31] = 7, _ => p[27] = 1 }; p } else { inner };
@@ -459,6 +462,26 @@ pub fn run(seed: u64, ntraces: usize) {
                     g.its_tx("deployRemote", &deployer, "deployRemoteInterchainTokenWithMinter", vec![salt.clone(), minter.clone(), dchain.clone()], 1000, &[],
                         json!({"salt": hx(&salt), "minter": hx(&minter), "dchain": hx(&dchain), "dminter": Value::Null}));
                 }
+                43 => { // directed: the nominated minter revokes its approval for (deployer, salt, ethereum)
+                    let Some(tk) = g.toks.iter().rev().find(|t| t.kind == "native" && t.minter.len() == 32) else { continue; };
+                    let (deployer, salt, minter) = (tk.deployer.clone(), tk.salt.clone(), tk.minter.clone()); let dchain = b"ethereum".to_vec();
+                    let caller = VMAddress::new(minter.clone().try_into().unwrap());
+                    g.its_tx("revokeRemote", &caller, "revokeDeployRemoteInterchainToken", vec![deployer.to_vec(), salt.clone(), dchain.clone()], 0, &[],
+                        json!({"deployer": hx(deployer.as_bytes()), "salt": hx(&salt), "dchain": hx(&dchain)}));
+                }
+                46 | 47 => { // directed: 47 starts a local deployment (supply 1000, minter users[0]); 46 continues the newest one with DIFFERENT arguments (no supply, no minter)
+                    let u = g.users[2].clone();
+                    let (salt, supply, minter, egld) = if a == 47 { (r.bytes(32), 1000u64, g.users[0].to_vec(), 0u64) } else {
+                        let Some(tk) = g.toks.iter().rev().find(|t| t.kind == "native") else { continue; }; (tk.salt.clone(), 0u64, vec![0u8; 32], if tk.token.is_none() { ISSUE_COST } else { 0 }) };
+                    let (ok, rets, dep) = g.its_tx("deployToken", &u, "deployInterchainToken", vec![salt.clone(), b"MyToken".to_vec(), b"MTK".to_vec(), vec![18], big(supply), minter.clone()], egld, &[],
+                        json!({"salt": hx(&salt), "name": hx(b"MyToken"), "symbol": hx(b"MTK"), "decimals": 18, "supply": supply.to_string(), "minter": hx(&minter)}));
+                    if ok && a == 47 { if let Some(tm) = dep { g.toks.push(Tok { id: rets.last().unwrap().clone(), kind: "native", tm, token: None, salt, deployer: u.clone(), supply, minter, custody: 0 }); } }
+                }
+                48 | 49 => { // directed: the service's operator proposes the role to users[1] (48) / transfers it to users[2] (49)
+                    let caller = g.operator.clone(); let na = if a == 48 { g.users[1].clone() } else { g.users[2].clone() };
+                    if a == 48 { let (ok, _, _) = g.its_tx("proposeOp", &caller, "proposeOperatorship", vec![na.to_vec()], 0, &[], json!({"a": hx(na.as_bytes())})); if ok { g.proposed = Some((caller.clone(), na.clone())); } }
+                    else { let (ok, _, _) = g.its_tx("transferOp", &caller, "transferOperatorship", vec![na.to_vec()], 0, &[], json!({"a": hx(na.as_bytes())})); if ok { g.operator = na; } }
+                }
                 40 | 41 => { // directed: the nominated minter of the last native token approves (40) / the deployer uses (41) a remote deployment with a custom minter
                     let Some(tk) = g.toks.iter().rev().find(|t| t.kind == "native" && t.minter.len() == 32) else { continue; };
                     let (deployer, salt, minter) = (tk.deployer.clone(), tk.salt.clone(), tk.minter.clone());
@@ -521,7 +544,7 @@ pub fn run(seed: u64, ntraces: usize) {
                                 let s = &mut rr.blockchain_mock.state;
                                 s.accounts.get_mut(&its_addr).unwrap().egld_balance -= &egld; s.accounts.get_mut(&to).unwrap().egld_balance += &egld;
                                 for (tk, v) in &esdts { { let cur = s.accounts.get(&its_addr).unwrap().esdt.get_esdt_balance(tk, 0); s.accounts.get_mut(&its_addr).unwrap().esdt.set_esdt_balance(tk.clone(), 0, &(cur - v), Default::default()); } s.accounts.get_mut(&to).unwrap().esdt.increase_balance(tk.clone(), 0, v, Default::default()); } } });
-                            *res = Some(if ok { TxResult::empty() } else { TxResult { result_status: 4, result_message: "destination failed".to_string(), ..TxResult::empty() } });
+                            *res = Some(if ok { if r.chance(1, 2) { TxResult { result_values: vec![b"done".to_vec(), vec![1, 2]], ..TxResult::empty() } } else { TxResult::empty() } } else { TxResult { result_status: 4, result_message: "destination failed".to_string(), ..TxResult::empty() } });
                             g.steps.push(json!({"op": {"op": "deliver", "id": pid, "ok": ok, "now": g.now}, "res": st.json}));
                             false
                         }
